@@ -318,19 +318,28 @@ def bits_worker(rec):
                         R.bad({**sig0, "clause": "bit_convention" if noerr else "detection_errors",
                                "api": "CoherentResults." + api, "form": form, "f": list(f),
                                "errs": "none" if errs is None else "dict"}, {**det0, "why": msg, "counts": dict(c)})
-                if errs is not None and eb in TWO.values() and matching:
-                    # expectation of "atom i reads 1" on the pseudo-density matrix = marginal of the reference;
-                    # the pseudo-density uses the documented state vectors (r, h, d = |1> of XY at index 0, 1, 1)
+                if errs is not None and matching and eb.replace("x", "") in TWO.values():
+                    # expectation of the diagonal projector "atom i reads 1" on the pseudo-density matrix
+                    #   = the reference probability Marg/16 (field r), and = the sampled frequency (6 sigma);
+                    # the pseudo-density is a 2-level object in the documented state-vector order of the
+                    # measurement basis (r, h, d = |1> of XY at index 0, 1, 1), with or without the leakage level
                     pos = 0 if mb == "ground-rydberg" else 1
+                    Nf = 40 if certain else 2000
+                    freq = cr.sample_final_state(Nf)
                     for i in range(n):
-                        R.tests += 1
+                        R.tests += 2
                         ob = qutip.tensor([qutip.basis(2, pos).proj() if j == i else qutip.qeye(2) for j in range(n)])
                         got = float(np.real(cr.expect([ob])[0][0]))
-                        marg = float(sum(p[k] for k in range(2 ** n) if bitstr(k, n)[i] == "1"))
+                        marg = rec["r"][i] / 16
+                        clause = "bit_convention" if noerr else "detection_errors"
                         if abs(got - marg) > 1e-9:
-                            R.bad({**sig0, "clause": "bit_convention" if noerr else "detection_errors",
-                                   "api": "CoherentResults.expect(pseudo-density)", "form": form, "f": list(f)},
-                                  {**det0, "atom": i, "got": got, "expected": marg})
+                            R.bad({**sig0, "clause": clause, "api": "CoherentResults.expect(pseudo-density)",
+                                   "form": form, "f": list(f)}, {**det0, "atom": i, "got": got, "expected": marg})
+                        ones = sum(v for k, v in freq.items() if str(k)[i] == "1")
+                        if abs(ones - Nf * got) > 6.0 * math.sqrt(max(Nf * got * (1 - got), 0.0)) + 0.5:
+                            R.bad({**sig0, "clause": clause, "api": "CoherentResults.expect vs sample_final_state",
+                                   "form": form, "f": list(f)},
+                                  {**det0, "atom": i, "expect": got, "sampled_ones": ones, "shots": Nf})
     # 6. SampledResult built from counts proportional to the reference distribution
     if noerr:
         R.tests += 3
@@ -552,6 +561,76 @@ def emu_spam_worker(rec):
         if sum(r_.bitstring_counts.values()) != runs * spr:
             R.bad({**sig0, "clause": "sampling", "api": "QutipEmulator.run/NoisyResults"},
                   {**det0, "counts": dict(r_.bitstring_counts), "expected_total": runs * spr})
+    return R.out()
+
+
+@_guard
+def emu_leak_worker(rec):
+    """Leakage bases (`*_with_error`) through the legacy emulator: SPAM detection errors with eta = 0 (so that
+    CoherentResults come back), leakage + a 3x3 effective noise operator of negligible rate; the product state is
+    prepared by local pi pulses (ground-rydberg, digital; no atom in x) or given as the initial state of an
+    all-zero drive (ground-rydberg, XY; atoms in x allowed).  expect() of "atom i reads 1" against the reference
+    probability and against the sampled bitstrings."""
+    R = Rep()
+    eb, mb, a, f = rec["e"], rec["m"], rec["a"], tuple(rec["f"])
+    n = len(a)
+    _seed_for(rec, 7)
+    p = np.array(rec["d"], dtype=float) / 4 ** (n + 1)
+    eps, epsp = f[0] / 4, f[1] / 4
+    certain = all(x in (0, 4 ** (n + 1)) for x in rec["d"])
+    N = 40 if certain else 2000
+    core = eb.replace("x", "")
+    by_pulses = "x" not in a and (core == "gh" or (core == "rg" and _crc(rec) % 2 == 0))
+    if not by_pulses and core == "gh":
+        return R.out()           # a zero drive is emulated in the ground-rydberg (or XY) basis: no digital variant
+    sig0 = {"eb": eb, "mb": mb, "n": n, "level": "emulator", "noise": "SPAM+leakage+eff_noise",
+            "prepared": "pi_pulses" if by_pulses else "initial_state"}
+    det0 = {"point": rec}
+    decay = np.zeros((3, 3))
+    decay[1, 2] = 1.0            # x -> second level, at a rate that changes nothing over the run
+    cfg = SimConfig(noise=("SPAM", "leakage", "eff_noise"), eta=0.0, epsilon=eps, epsilon_prime=epsp,
+                    eff_noise_rates=[1e-9], eff_noise_opers=[qutip.Qobj(decay)])
+    if by_pulses:
+        seq = prep_sequence(a, core, mb)
+        tol, slack = 2e-3, 3 + N * 1e-3
+    else:
+        seq = Sequence(register(n), MockDevice)
+        seq.declare_channel("ch", "mw_global" if mb == "XY" else "rydberg_global")
+        seq.delay(40, "ch")
+        tol, slack = 1e-6, 2
+    em = QutipEmulator.from_sequence(seq, evaluation_times="Minimal", config=cfg)
+    if not by_pulses:
+        em.set_initial_state(product_ket(a, eb))
+    res = em.run()
+    R.tests += 3
+    if not isinstance(res, CoherentResults) or em.basis_name != basis_name_of(eb):
+        R.bad({**sig0, "clause": "run_returns", "what": "results_kind"},
+              {**det0, "type": type(res).__name__, "basis_name": em.basis_name})
+        return R.out()
+    for st in res.states:
+        check_physical(R, st, {**sig0, "api": "QutipEmulator.run"}, det0, noisy=True)
+    c = res.sample_final_state(N)
+    msg = check_counts(c, p, N, n, slack)
+    clause = "bit_convention" if f == (0, 0) else "detection_errors"
+    if msg:
+        R.bad({**sig0, "clause": clause, "api": "QutipEmulator.run/sample_final_state", "f": list(f)},
+              {**det0, "why": msg, "counts": dict(c)})
+    pos = 0 if mb == "ground-rydberg" else 1
+    # without any detection error the noise model has no SPAM component and expect() works on the 3-level
+    # states, not on the pseudo-density matrix (and SimulationResults._dim ignores the leakage level there:
+    # outside this property), so the expectation clause is exercised with configured errors only
+    for i in (range(n) if f != (0, 0) else ()):
+        R.tests += 2
+        ob = qutip.tensor([qutip.basis(2, pos).proj() if j == i else qutip.qeye(2) for j in range(n)])
+        got = float(np.real(res.expect([ob])[0][-1]))
+        marg = rec["r"][i] / 16
+        if abs(got - marg) > tol:
+            R.bad({**sig0, "clause": clause, "api": "QutipEmulator.run/expect(pseudo-density)", "f": list(f)},
+                  {**det0, "atom": i, "got": got, "expected": marg})
+        ones = sum(v for k, v in c.items() if str(k)[i] == "1")
+        if abs(ones - N * got) > 6.0 * math.sqrt(max(N * got * (1 - got), 0.0)) + 0.5 + slack:
+            R.bad({**sig0, "clause": clause, "api": "QutipEmulator.run/expect vs sample_final_state", "f": list(f)},
+                  {**det0, "atom": i, "expect": got, "sampled_ones": ones, "shots": N})
     return R.out()
 
 
@@ -912,7 +991,7 @@ CONFIGS = ('{<<<<"r","g">>,"ground-rydberg">>, <<<<"g","h">>,"digital">>, <<<<"u
            '<<<<"r","g","h","x">>,"ground-rydberg">>, <<<<"r","g","h","x">>,"digital">>}')
 CONFIGS_UPTO3 = CONFIGS[:CONFIGS.index(', <<<<"r","g","h","x">>')] + "}"
 BITS_LAWS = ["Emit", "SumsToOne", "NoErrorIsBits", "OnesAreOneLetter", "IndexRange", "IndexInjective",
-             "TwoLevelOrder", "MarginalIsRate", "CertainFlip"]
+             "TwoLevelOrder", "MarginalIsRate", "MarginalOfMixture", "LeakageReadsZero", "CertainFlip"]
 TIMES_LAWS = ["Emit", "ShapeTiles", "WithinSequence", "EndRequiredIffAsked", "DistinctTimes", "DefaultsOnlyWithoutOwn"]
 QUBIT_LAWS = ["Emit", "Physical", "FullTurn", "Additive", "OppositePhase", "PhaseIsFrame", "RabiFromPole",
               "DetuningKeepsPopulation"]
@@ -968,8 +1047,13 @@ def run(tier):
     def spam_ok(p):
         return p["w"] == 4 and (p["e"], p["m"]) == ("rg", "ground-rydberg") and p["f"][0] in (0, 4)
 
+    def leak_ok(p):
+        return p["w"] == 4 and (p["e"], p["m"]) in {("rgx", "ground-rydberg"), ("ghx", "digital"), ("udx", "XY")} \
+            and (len(p["a"]) < 3 or _crc(p) % 3 == 0)
+
     bits_jobs = [("objects", bits_worker, lambda p: True, 16), ("prepared", emu_prep_worker, prep_ok, 4),
-                 ("zero_drive", emu_zero_worker, zero_ok, 4), ("spam_eta1", emu_spam_worker, spam_ok, 4)]
+                 ("zero_drive", emu_zero_worker, zero_ok, 4), ("spam_eta1", emu_spam_worker, spam_ok, 4),
+                 ("leakage", emu_leak_worker, leak_ok, 2)]
     if quick:
         stage("bits-n12", "EmuBits", {"NSet": "{1, 2}", "Configs": CONFIGS, "Weights": "{1, 2, 4}",
                                       "Flips": "{<<0,0>>, <<4,0>>, <<0,4>>, <<4,4>>, <<1,2>>}",
